@@ -226,7 +226,7 @@ func canary(s *core.Sess, res *caseResult) *event {
 		case r.Panic != nil:
 			return &event{Kind: "panic", Sig: panicSig(r.Panic), Detail: "canary " + step + " panicked: " + r.Panic.Value + "\n" + core.Clip(r.Panic.Stack, 3000)}
 		case r.Err != nil:
-			return &event{Kind: "canary", Sig: "session-unusable:" + step + ":" + r.ErrClass() + ":" + core.StripVolatile(r.Err.Error()), Detail: "canary " + step + " failed: " + r.Err.Error()}
+			return &event{Kind: "canary", Sig: g12lib.NoSpace("session-unusable:" + step + ":" + r.ErrClass() + ":" + core.StripVolatile(r.Err.Error())), Detail: "canary " + step + " failed: " + r.Err.Error()}
 		}
 		return &event{Kind: "canary", Sig: "session-unusable:" + step + ":" + why, Detail: "canary " + step + ": " + why + " rows=" + strings.Join(core.CanonRows(r.Rows), ";")}
 	}
